@@ -16,10 +16,7 @@ BUILD = os.path.join(ROOT, "_build")
 COQ = os.path.join(ROOT, "coq")
 GEN = os.path.join(COQ, "theories", "Gen")
 EXTRACT = os.path.join(BUILD, "extract")
-DRIVER = os.path.join(BUILD, "driver")
 CARGO_TARGET = os.path.join(BUILD, "cargo")
-HARNESS = os.path.join(CARGO_TARGET, "release", "vharness")
-HARNESS_DEBUG = os.path.join(CARGO_TARGET, "debug", "vharness")
 REPLAYS = os.path.join(BUILD, "replays")
 EVIDENCE = os.path.join(ROOT, "evidence")
 KNOWN = os.path.join(ROOT, "KNOWN_FINDINGS.json")
@@ -211,26 +208,35 @@ def inside_section(src, pos):
     return any(k == "Section" for k, _ in stack)
 
 
-def stage_extract(force=False):
-    """extract the model (ExtrOcamlBasic only) and build the OCaml driver, when the model,
-    the generated tables or the driver sources changed."""
+def driver_path(group):
+    return os.path.join(BUILD, "driver-" + group)
+
+
+def harness_path(binname, debug=False):
+    return os.path.join(CARGO_TARGET, "debug" if debug else "release", binname)
+
+
+def stage_extract(group, force=False):
+    """extract one group of the model (coq/extract/<group>.v; ExtrOcamlBasic only) and build its
+    OCaml driver (ocaml/<group>/), when the model, the generated tables or the driver changed."""
     srcs = (glob_files(os.path.join(COQ, "theories", "Model"), ".v") + glob_files(GEN, ".v") +
             glob_files(os.path.join(COQ, "theories", "Base"), ".v") +
-            glob_files(os.path.join(COQ, "theories", "Extract"), ".v") + glob_files(os.path.join(ROOT, "ocaml"), ".ml") +
-            [os.path.join(ROOT, "bin", "build-ocaml")])
-    stamp = os.path.join(BUILD, "extract.stamp")
+            [os.path.join(COQ, "extract", group + ".v"), os.path.join(ROOT, "ocaml", "conv.ml"), os.path.join(ROOT, "ocaml", "convz.ml")] +
+            glob_files(os.path.join(ROOT, "ocaml", group), ".ml") + [os.path.join(ROOT, "bin", "build-ocaml")])
+    exdir = os.path.join(EXTRACT, group)
+    stamp = os.path.join(BUILD, "extract-%s.stamp" % group)
     h = file_hash(srcs)
-    if not force and os.path.exists(stamp) and open(stamp).read() == h and os.path.exists(DRIVER):
+    if not force and os.path.exists(stamp) and open(stamp).read() == h and os.path.exists(driver_path(group)):
         return True, "extraction up to date", 0.0
     t0 = time.time()
-    sh(["rm", "-rf", EXTRACT])
-    os.makedirs(EXTRACT, exist_ok=True)
+    sh(["rm", "-rf", exdir])
+    os.makedirs(exdir, exist_ok=True)
     rc, out, _ = sh(["coqc", "-Q", os.path.join(COQ, "theories"), "LC", "-noglob",
-                     os.path.join(COQ, "theories", "Extract", "Extract.v"), "-o", os.path.join(EXTRACT, "Extract.vo")],
-                    cwd=EXTRACT, timeout=900)
+                     os.path.join(COQ, "extract", group + ".v"), "-o", os.path.join(exdir, group + ".vo")],
+                    cwd=exdir, timeout=900)
     if rc != 0:
         return False, out, time.time() - t0
-    rc, out2, _ = sh([os.path.join(ROOT, "bin", "build-ocaml"), EXTRACT, DRIVER], timeout=900)
+    rc, out2, _ = sh([os.path.join(ROOT, "bin", "build-ocaml"), group, exdir, driver_path(group)], timeout=900)
     if rc != 0:
         return False, out + out2, time.time() - t0
     with open(stamp, "w") as f:
@@ -238,16 +244,9 @@ def stage_extract(force=False):
     return True, out + out2, time.time() - t0
 
 
-def stage_cargo(debug=False, features=("hooks",)):
-    """rebuild the harness against /repo's current working tree (path dependency)."""
-    lock_src = os.path.join(REPO, "Cargo.lock")
-    lock_dst = os.path.join(ROOT, "harness", "Cargo.lock")
-    try:
-        if not os.path.exists(lock_dst) or open(lock_src, "rb").read() != open(lock_dst, "rb").read():
-            pass  # keep our own lock file once generated; it is a superset of the repository's
-    except FileNotFoundError:
-        pass
-    cmd = ["cargo", "build", "--offline", "--manifest-path", os.path.join(ROOT, "harness", "Cargo.toml")]
+def stage_cargo(binname, debug=False, features=("hooks",)):
+    """rebuild one harness binary against /repo's current working tree (path dependency)."""
+    cmd = ["cargo", "build", "--offline", "--manifest-path", os.path.join(ROOT, "harness", "Cargo.toml"), "--bin", binname]
     if not debug:
         cmd.append("--release")
     if features:
@@ -372,7 +371,7 @@ TRUSTED_BASE = [
 ]
 
 
-def standard_build(res, prop, need_driver=True, need_harness=True, coq_targets=None, debug_harness=False):
+def standard_build(res, prop, group=None, harness_bin=None, coq_targets=None, debug_harness=False, model_deps=None):
     """tablegen -> coq -> assumptions -> hygiene -> extraction -> cargo.  Records obligations
     in res; returns dict of stage flags.  Broken obligations become violations only after the
     caller has searched for a failing input (see decide())."""
@@ -408,20 +407,23 @@ def standard_build(res, prop, need_driver=True, need_harness=True, coq_targets=N
         st["hygiene"] = not bad
         if bad:
             st["broken"].append({"obligation": "hygiene", "detail": bad})
-        if need_driver:
-            ok, out, dt = stage_extract()
+        if group:
+            # the extracted model needs the Model/*.vo of the group compiled
+            if model_deps:
+                stage_coq(model_deps)
+            ok, out, dt = stage_extract(group)
             st["extract"] = ok
             res.notes["extract_s"] = round(dt, 1)
             if not ok:
                 st["broken"].append({"obligation": "extraction", "detail": out[-3000:]})
-        if need_harness:
-            ok, out, dt = stage_cargo(debug=False)
+        if harness_bin:
+            ok, out, dt = stage_cargo(harness_bin, debug=False)
             st["cargo"] = ok
             res.notes["cargo_s"] = round(dt, 1)
             if not ok:
                 st["broken"].append({"obligation": "harness-build", "detail": out[-4000:]})
             if debug_harness and ok:
-                ok, out, dt = stage_cargo(debug=True)
+                ok, out, dt = stage_cargo(harness_bin, debug=True)
                 st["cargo_debug"] = ok
                 if not ok:
                     st["broken"].append({"obligation": "harness-build-debug", "detail": out[-4000:]})
